@@ -3,7 +3,7 @@ CONSTANTS Menu = "C02"
  Layouts = {"siblings", "nested", "root"}
  AllPlants = FALSE
  Lite = FALSE
- Flavours <- Flav_two
+ Flavours <- Flav_twoA
 INIT HInit
 NEXT HNext
 INVARIANT EmitCase
